@@ -731,6 +731,13 @@ def _evaluate(res, prop, config, req, out, hooks):
     res.count("outcome:" + got_class)
     V.extend(oracles.check_wellformed(got_stage, config, out.result,
                                       req.text, None))
+    if tracer is not None:
+        # whatever the outcome, the tracer's payload must be serialisable
+        try:
+            json.dumps(tracer.payload(), allow_nan=False)
+        except Exception as err:  # noqa: B902
+            V.append(Violation(("C16",), "tracer_payload",
+                               ("not-serialisable", got_class), repr(err)))
     if got_class == "executed":
         # a corrupted request that still executes: only generic hook checks
         V.extend(oracles.check_hooks(config, "executed-unknown", None, events,
